@@ -186,7 +186,10 @@ def run_dmrg(spec):
                     # can not be guaranteed (the projected-out states are eigenvectors of P H P with eigenvalue 0)
                     EH2 = np.vdot(r2, H @ r2).real
                     # (with the Lanczos option E_shift the relevant energy is the one of the shifted operator)
-                    if E2 + (spec['E_shift'] or 0.) < -1e-6 and E2 < -1e-6:
+                    # (asserted only well inside that regime: with a shifted energy close to zero compared to the spectral width the
+                    # local eigensolver separates the target from the projected-out direction arbitrarily slowly)
+                    margin = -0.05 * max(1., nH)
+                    if E2 + (spec['E_shift'] or 0.) < margin and E2 < margin:
                         # the projector acts inside the local eigensolver only (the initial guess is not projected), so the
                         # component along psi0 decays from sweep to sweep and is as small as the convergence criteria make it:
                         # a remaining overlap eps costs eps^2 |E| in energy, max_E_err = 1e-8 allows eps ~ 1e-4 .. 1e-3
@@ -242,6 +245,10 @@ def run_infinite(spec):
             L = min(L, 2)
             if kind == 'vumps1':
                 conserve = None
+        if spec['J'] < 0 and abs(g) < abs(spec['J']) and L % 2:
+            # antiferromagnetic order (period 2) does not fit into a unit cell of odd length: the variational optimum is a frustrated /
+            # non-injective state whose canonical form is ill-defined (degenerate transfer matrix); not a statement about the engines
+            L = 2
         model = TFIChain({'L': L, 'J': spec['J'], 'g': g, 'bc_MPS': 'infinite', 'conserve': conserve})
         sites = model.lat.mps_sites()
         mixer = spec['mixer']
